@@ -3,6 +3,7 @@ package liquid
 // C12 — assign/capture bind for the rest of the render; loop variables are restored.
 
 import (
+	yaml "gopkg.in/yaml.v2"
 	"math"
 	nd "github.com/osteele/liquid/zz_verifnd"
 )
@@ -29,7 +30,13 @@ func c12Payload(k int) (any, string) {
 func VerifC12Assign() {
 	v, pv := c12Payload(nd.Choice(3))
 	var src, want string
-	switch nd.Choice(6) {
+	switch nd.Choice(8) {
+	case 6: // a variable assigned from the loop variable keeps that element: pairs of a map and of an ordered map included
+		src = "{% for kv in ym %}{% if forloop.first %}{% assign keep = kv %}{% assign a = v %}{% endif %}{% endfor %}{{ keep[0] }}={{ keep[1] }}[{{a}}]"
+		want = "p=1[" + pv + "]"
+	case 7:
+		src = "{% for kv in gm %}{% if forloop.first %}{% assign keep = kv %}{% assign a = v %}{% endif %}{% endfor %}{{ keep[0] }}={{ keep[1] }}|{% for row in rows %}{% if forloop.first %}{% assign r = row %}{% endif %}{% endfor %}{{ r | join }}[{{a}}]"
+		want = "p=1|1 2[" + pv + "]"
 	case 5: // a variable assigned from forloop keeps the value forloop had then
 		src = "{% for i in (1..3) %}{% if forloop.first %}{% assign f = forloop %}{% assign a = v %}{% endif %}{{ f.index }}{{ f.last }}{{ f.rindex0 }};{% endfor %}|{{ f.index }}{{ f.length }}[{{a}}]"
 		want = "1false2;1false2;1false2;|13[" + pv + "]"
@@ -45,7 +52,7 @@ func VerifC12Assign() {
 	case 4: // re-assignment wins; a filter pipeline value
 		src, want = "{% assign a = 1 %}{% assign a = v %}{% assign b = a %}[{{b}}]", "["+pv+"]"
 	}
-	out, err := vRender(src, Bindings{"v": v})
+	out, err := vRender(src, Bindings{"v": v, "ym": yaml.MapSlice{{Key: "p", Value: 1}, {Key: "q", Value: 2}, {Key: "r", Value: 3}}, "gm": map[string]any{"p": 1, "q": 2}, "rows": [][]int{{1, 2}, {3, 4}}})
 	nd.Assert(err == nil, "assign-no-error")
 	nd.Assert(out == want, "assign-visible")
 	nd.Reach("C12.assign")
@@ -56,7 +63,11 @@ func VerifC12Capture() {
 	s, ps := c12Payload(nd.Choice(3))
 	t := nd.String(2)
 	var src, want string
-	switch nd.Choice(5) {
+	switch nd.Choice(7) {
+	case 5: // the body of a capture still sees the value its variable had before
+		src, want = "{% assign c = 'old' %}{% capture c %}<{{ c }}{{ t }}>{% endcapture %}[{{ c }}]", "[<old"+t+">]"
+	case 6: // the accumulator idiom
+		src, want = "{% for i in (1..3) %}{% capture acc %}{{ acc }}{{ i }}{{ t }}{% endcapture %}{% endfor %}[{{ acc }}]", "[1"+t+"2"+t+"3"+t+"]"
 	case 3: // an empty capture binds the empty text, replacing an earlier value
 		src, want = "{% assign c = 'old' %}{% capture c %}{% if false %}x{% endif %}{% endcapture %}[{{c}}]{% capture c %}{% endcapture %}[{{c}}]", "[][]"
 	case 4: // the same capture site in later iterations
